@@ -210,8 +210,8 @@ func (o *queryHandler) changeHandler(qc QueryChange) {
 		rids := o.ar(o.pattern, qc)
 		for _, rid := range rids {
 			if err := o.resourceEvent(rid, qc); err != nil {
+				// An error for one resource does not concern the other affected resources.
 				o.errorf("QueryHandler encountered error generating events for resource %s: %s", rid, err)
-				return
 			}
 		}
 	} else {
